@@ -43,6 +43,8 @@ SCALAR_BLOCKS = [
     (("color", "enum", None), ("when", "datetime", None), ("tags", "list_str", None)),
     (("maybe", "opt_enum", None), ("nums", "list_int", None), ("f", "float", None), ("b", "bool", None), ("_p", "str", None)),
     (("o", "opt_int", None),),  # only Optional scalars
+    (("seen", "opt_datetime", None), ("status", "opt_ext_enum", None), ("ratio", "opt_float", None)),  # only Optional non-int scalars
+    (("status", "ext_enum", None), ("ok", "opt_bool", None)),  # an enum defined in a module without mapped classes
 ]
 
 
